@@ -35,7 +35,7 @@ const c06Rule = "rapid-generated models of the graph profile; per model: real Bu
 	"type_definitions must give the same verdict and dump; a rapid-drawn permutation of the operands of every union/intersection must leave every relation's weights " +
 	"unchanged; a builder value that built another rapid-drawn model before must give the same result as a fresh builder; 8 goroutines building the same shared model " +
 	"(half of them through one shared builder value) and 4 other models concurrently must reproduce the sequential dumps (binary built with -race). " +
-	"Non-trivial = model with a tuple cycle or >= 2 operators; distinct by model content."
+	"Non-trivial = model with a tuple cycle or >= 2 operators; distinct by model content. Bounded exhaustive part: a small universe (user; doc with p:[doc] and relations a, b each defined by one of 8 leaf forms or a binary operator over two of them: 200 x 200 = 40 000 models) under ALL DFS start orders; quick enumerates every 16th model, thorough the complete universe split over the 16 processes."
 
 // c06RelWeights: verdict plus the weights of relation nodes only.
 func c06RelWeights(m *gen.Model) (string, error) {
@@ -219,6 +219,36 @@ func TestC06(t *testing.T) {
 	}
 	rec.Require("model:has-cycle", 0.15)
 	rec.Require("lib:accepted", 0.10)
+	// bounded exhaustive part: the small universe (wgSmallModel) under ALL depth-first start orders must give
+	// one verdict and one dump per model. quick: every 64th model; thorough: every 2nd, over the shards.
+	{
+		defs := smallDefs()
+		total := len(defs) * len(defs)
+		stride := 64 // the binary is race-instrumented: a smaller sample than in C04/C05, which enumerate the same universe
+		if ev.Thorough() {
+			stride = 2
+		}
+		var n, orders int64
+		for idx := ev.Shard() + int(ev.Seed()%int64(stride))*ev.Shards(); idx < total; idx += ev.Shards() * stride {
+			m := wgSmallModel(defs, idx)
+			in := wgInput{Model: m}
+			if g0 := ref.Build(m); g0.Err == "" {
+				in.Orders = permutations(wgNonTerminal(g0), 1000)
+			}
+			res := wgEvaluate(in, wgOpts{RealBuilds: 3})
+			n++
+			orders += int64(res.Orders)
+			for _, f := range res.Findings {
+				if f.Aspect == "determinism" {
+					cin := c06Input{Model: m, Orders: in.Orders, Text: m.String()}
+					rec.Violation(cin, f.What)
+					t.Fatalf("small universe model #%d: %s\n%s", idx, f.What, m.String())
+				}
+			}
+		}
+		rec.Bulk(n, n, map[string]int64{"small-universe:models": n, "small-universe:ordered-builds": orders})
+		rec.Note("small universe: %d of %d models (stride %d) under all DFS start orders (%d ordered builds)", n, total, stride, orders)
+	}
 	rapid.Check(t, func(rt *rapid.T) {
 		m := gen.GraphModel(rt, gen.GraphOpts{MultiThis: true, DupRestr: true, Hazards: rapid.IntRange(0, 7).Draw(rt, "hz") == 0, CycleBoost: rapid.IntRange(0, 4).Draw(rt, "cb") == 0})
 		in := c06Input{Model: m}
